@@ -373,6 +373,17 @@ def family(rng, kind, layout, k):
             a1, b1, a2, b2 = gs.moments_in_disc(rng, E.shape)
             g.update({"a1": a1, "b1": b1, "a2": a2, "b2": b2})
         out.append(g)
+    # measured moments scatter: some bins (slightly) outside the unit disc in some members
+    if kind == "1d":
+        for g in out:
+            if rng.uniform() < 0.35:
+                for pair in (("a1", "b1"), ("a2", "b2")):
+                    a, b = np.array(g[pair[0]], dtype=float), np.array(g[pair[1]], dtype=float)
+                    pick = rng.uniform(0, 1, a.shape) < 0.3
+                    r = np.hypot(a, b)
+                    fac = np.where(pick & (r > 0), rng.uniform(1.02, 1.3, a.shape) / np.where(r > 0, r, 1.0), 1.0)
+                    g[pair[0]], g[pair[1]] = a * fac, b * fac
+                g["mkind"] = "outside-unit-disc"
     # NaN bins in some members
     for g in out:
         if rng.uniform() < 0.4:
